@@ -23,9 +23,9 @@
 //!
 //! Time: the code reads `Utc::now() + offset`.  The harness starts a case with
 //! offset 0, remembers `base = Utc::now()`, and advances the offset by whole
-//! seconds only.  A timestamp is canonicalised to floor((t - base) / 1 s); as
-//! long as a case takes less than a second of real time (checked; the case is
-//! re-run otherwise) every `expires_at <= now` comparison in the code agrees
+//! multiples of QUANT = 5 seconds only.  A timestamp is canonicalised to the
+//! multiple of QUANT below (t - base); as long as a case takes less than QUANT
+//! seconds of real time (checked with a margin; the case is re-run otherwise) every `expires_at <= now` comparison in the code agrees
 //! with the comparison of the canonical values.
 use cardinalsin::metadata::{
     CompactionLeases, LeaseStatus, LocalMetadataClient, MetadataClient, ObjectStoreMetadataClient,
@@ -239,8 +239,14 @@ fn node_id(s: &str) -> u32 {
 
 type Base = chrono::DateTime<chrono::Utc>;
 
+/// clock quantum in seconds: every tick is a multiple of it and timestamps are
+/// canonicalised to the quantum below them, so a case may take up to QUANT
+/// seconds of real time before a comparison could come out differently
+const QUANT: i64 = 5;
+const SLOW_MS: u128 = 3500;
+
 fn canon_secs(t: Base, base: Base) -> i64 {
-    (t - base).num_milliseconds().div_euclid(1000)
+    (t - base).num_milliseconds().div_euclid(1000 * QUANT) * QUANT
 }
 
 fn canon_lease(l: &cardinalsin::metadata::CompactionLease, base: Base, ids: &HashMap<u32, String>) -> PL {
@@ -578,7 +584,7 @@ async fn run_s3_async(case: &Case) -> Outcome {
         now_s * 1000,
         if excl_ok { 1 } else { 0 }
     );
-    out.slow = started_at.elapsed().as_millis() > 700;
+    out.slow = started_at.elapsed().as_millis() > SLOW_MS;
     set_clock_offset_nanos(0);
     out
 }
@@ -658,7 +664,7 @@ async fn run_local_async(hist: &[HStep]) -> Outcome {
         }
     }
     out.line = toks.join(",");
-    out.slow = started_at.elapsed().as_millis() > 700;
+    out.slow = started_at.elapsed().as_millis() > SLOW_MS;
     set_clock_offset_nanos(0);
     out
 }
@@ -675,8 +681,8 @@ fn run_local(hist: &[HStep]) -> Outcome {
 }
 
 // ------------------------------------------------------------ generators ----
-const TICKS_SLOW: [u64; 6] = [1, 30, 60, 119, 120, 121];
-const TICKS_FAST: [u64; 10] = [60, 120, 150, 180, 181, 299, 300, 301, 420, 600];
+const TICKS_SLOW: [u64; 6] = [5, 30, 60, 115, 120, 125];
+const TICKS_FAST: [u64; 10] = [60, 120, 150, 180, 185, 295, 300, 305, 420, 600];
 
 fn gen_chunks(rng: &mut Rng) -> Vec<u32> {
     let k = match rng.below(20) {
@@ -783,7 +789,7 @@ fn gen_starvation(rng: &mut Rng) -> Case {
 }
 
 /// exhaustive small scope: 2 nodes, (acquire; renew) against (acquire | scavenge | renew ...),
-/// every request interleaving of length `len`, one tick of 299/300/301 s at every position
+/// every request interleaving of length `len`, one tick of 295/300/305 s at every position
 fn exhaustive(len: usize) -> Vec<Case> {
     let p0 = vec![Op::A { id: 1, holder: 10, chunks: vec![1, 2], level: 0 }, Op::R(1)];
     let a2 = Op::A { id: 2, holder: 11, chunks: vec![2, 3], level: 0 };
@@ -797,7 +803,7 @@ fn exhaustive(len: usize) -> Vec<Case> {
     for p1 in &variants {
         for bits in 0..(1u32 << len) {
             for pos in 0..=len {
-                for d in [299u64, 300, 301] {
+                for d in [295u64, 300, 305] {
                     let mut sched = Vec::new();
                     for i in 0..len {
                         if i == pos {
@@ -821,17 +827,17 @@ fn corpus() -> Vec<Case> {
     let lines = [
         // first-write race of two overlapping acquires; expiry; reclaim; the old holder is told
         "S|0|A.1.10.1+2.0,R.1/A.2.11.2+3.0,A.3.11.2+3.0|q0,q1,q0,q1,q1,t300000,q1,q1,q0",
-        // one second before expiry: still refused
-        "S|0|A.1.10.1+2.0,R.1/A.2.11.2+3.0,A.3.11.2+3.0|q0,q1,q0,q1,q1,t299000,q1",
+        // one clock quantum before expiry: still refused
+        "S|0|A.1.10.1+2.0,R.1/A.2.11.2+3.0,A.3.11.2+3.0|q0,q1,q0,q1,q1,t295000,q1",
         // renewed after 120 s: refused at 320 s
         "S|0|A.1.10.1+2.0,R.1/A.2.11.2+3.0,A.3.11.2+3.0|q0,q1,q0,q1,q1,t120000,q0,q0,t200000,q1",
         // retry exhaustion (5 lost PUTs in a row)
         "S|0|A.1.10.1.0/A.2.11.2.0,C.2,F.2,C.2,F.2,C.2|q1,q1,q0,q1,q1,q0,q0,q1,q1,q0,q0,q1,q1,q0,q0,q1,q1,q0,q0,q1,q1,q0",
         // renew of an expired but not yet reclaimed lease revives it; the later acquire is refused
-        "S|0|A.1.10.1+2.0,R.1/A.2.11.2+3.0|q0,q0,t301000,q0,q0,q1",
+        "S|0|A.1.10.1+2.0,R.1/A.2.11.2+3.0|q0,q0,t305000,q0,q0,q1",
         // renew (decided before expiry) racing a reclaiming acquire (decided after): the PUT order decides
-        "S|0|A.1.10.1+2.0,R.1/A.2.11.2+3.0|q0,q0,t299000,q0,t2000,q1,q1,q0,q0",
-        "S|0|A.1.10.1+2.0,R.1/A.2.11.2+3.0|q0,q0,t299000,q0,t2000,q1,q0,q1,q1",
+        "S|0|A.1.10.1+2.0,R.1/A.2.11.2+3.0|q0,q0,t295000,q0,t10000,q1,q1,q0,q0",
+        "S|0|A.1.10.1+2.0,R.1/A.2.11.2+3.0|q0,q0,t295000,q0,t10000,q1,q0,q1,q1",
         // scavenge racing a renew
         "S|0|A.1.10.1+2.0,R.1/S,A.2.11.1.0|q0,q0,t300000,q1,q0,q0,q1,q1,q1",
         "S|0|A.1.10.1+2.0,R.1/S,A.2.11.1.0|q0,q0,t300000,q0,q1,q1,q0,q0,q1",
@@ -927,11 +933,11 @@ fn main() {
     for c in exhaustive(if thorough { 8 } else { 6 }) {
         cases.push(("exhaustive", c));
     }
-    for _ in 0..(if thorough { 400 } else { 60 }) {
+    for _ in 0..(if thorough { 1500 } else { 150 }) {
         let mut r = rng.fork();
         cases.push(("starvation", gen_starvation(&mut r)));
     }
-    for _ in 0..(if thorough { 6000 } else { 700 }) {
+    for _ in 0..(if thorough { 40000 } else { 3000 }) {
         let mut r = rng.fork();
         cases.push(("random", gen_random(&mut r)));
     }
